@@ -41,6 +41,14 @@ impl Check for C03 {
                 let payload = bytes_of_len(ctx, lp);
                 let n = 1 + ctx.rng.below(4);
                 c03_case(ctx, &body, &signer, &aad, &payload, n);
+                if ctx.rng.chance(1, 6) {
+                    // AAD / payload that is itself a Sig_structure over the same headers
+                    let (pb, ps) = (crate::model::prot_slot(&body), crate::model::prot_slot(&signer));
+                    let nested = if ctx.rng.coin() { crate::model::structure("Signature1", &[&pb, &aad[..aad.len().min(40)], &payload[..payload.len().min(40)]]) } else { crate::model::structure("Signature", &[&pb, &ps, &aad[..aad.len().min(40)], &payload[..payload.len().min(40)]]) };
+                    c03_case(ctx, &body, &signer, &nested, &payload, n);
+                    c03_case(ctx, &body, &signer, &aad, &nested, n);
+                    ctx.count("self-referential-aad");
+                }
                 built_then_edited_case(ctx, "Sig_structure", &body, &aad, &payload);
                 reprotect_case(ctx, "Sig_structure", &signer, &body, &aad, &payload);
                 decoded_edited_keeping_bytes_case(ctx, "Sig_structure", &body, &aad, &payload);
@@ -75,6 +83,13 @@ impl Check for C03 {
                 c03_case(ctx, &body, &same_content, &aad, &payload, 2);
                 decoded_edited_keeping_bytes_case(ctx, "Sig_structure", &body, &aad, &payload);
                 c03_decoded_countersig_case(ctx, &body, &signer, &aad, &payload);
+                // body and signer headers that differ only in the sign of a floating-point zero
+                let (ha, hb) = zero_twins(ctx);
+                let (pa, pb) = (MProt { bytes: None, header: ha.clone() }, MProt { bytes: None, header: hb.clone() });
+                c03_case(ctx, &pa, &pb, &aad, &payload, 2);
+                reprotect_case(ctx, "Sig_structure", &pa, &pb, &aad, &payload);
+                let (wa, wb) = (MProt { bytes: Some(crate::rcbor::det(&crate::model::enc_header(&ha))), header: ha }, MProt { bytes: Some(crate::rcbor::det(&crate::model::enc_header(&hb))), header: hb });
+                c03_decoded_case(ctx, &wa, &wb, &aad, &payload, detached);
             }
             _ => {
                 let body = gen_prot_variant(ctx, Origin::Built);
